@@ -12,6 +12,7 @@ import KvarnModel.Drv.C03
 import KvarnModel.Drv.C05
 import KvarnModel.Drv.C13
 import KvarnModel.Drv.C17
+import KvarnModel.Drv.C08
 /-!
 Line-protocol driver: `<group>.<fn> <arg> …` per line on stdin, one canonical line on stdout.
 Unknown or ill-formed lines answer `bad-op` — never a default.
@@ -37,6 +38,7 @@ def dispatchLine (line : String) : String :=
       | ["c05", f] => Drv.C05.handle (f :: args)
       | ["c13", f] => Drv.C13.handle (f :: args)
       | ["c17", f] => Drv.C17.handle' (f :: args)
+      | ["c08", f] => Drv.C08.handle (f :: args)
       | _ => none
     r.getD "bad-op"
 
